@@ -350,7 +350,8 @@ def run(ctx, col: Collector):
             n = 0
             for path in paths_of(fi, 1):
                 last = path[-1]
-                if last.kind != 'return' or last.node is None or last.node.value is None:
+                if last.kind != 'return' or last.node is None or last.node.value is None or (
+                        isinstance(last.node.value, ast.Constant) and last.node.value.value is None):
                     continue
                 n += 1
                 # which object gets `.table = None`, which object is returned
@@ -493,9 +494,17 @@ def run(ctx, col: Collector):
                     last = path[-1]
                     if not (last.kind == 'raise' and resolve_exc(ctx, fi, last.node.exc) in DVE):
                         bad = last
-            col.check(bad is None and n >= 1, 'C09-guard', f'Database.{m}:unsupported-type',
-                      f'{m} of an unsupported type raises DatabaseValidationError',
-                      f'Database.{m}: the fall-through of the isinstance dispatch does not raise DatabaseValidationError', node=fi.node, file=fi.file)
+            if bad is None and n >= 1:
+                col.ok('C09-guard', f'Database.{m}:unsupported-type', f'{m} of an unsupported type raises DatabaseValidationError', node=fi.node, file=fi.file)
+            else:
+                from .common import raises_in_closure
+                still = raises_in_closure(ctx, fi, set(DVE))
+                if still and n == 0:
+                    col.unk('C09-guard', f'Database.{m}:unsupported-type', f'Database.{m}: the type dispatch is not an isinstance chain in this function (the validation error is still '
+                            f'raised at {still[0]}); cannot judge the fall-through', node=fi.node, file=fi.file)
+                else:
+                    col.bad('C09-guard', f'Database.{m}:unsupported-type', f'Database.{m}: the fall-through of the isinstance dispatch does not raise DatabaseValidationError',
+                            node=fi.node, file=fi.file)
         # deleting something absent
         for m, container in (('delete_table', 'self.tables'), ('delete_reference', 'self.refs'), ('delete_enum', 'self.enums'),
                              ('delete_table_group', 'self.table_groups')):
